@@ -68,7 +68,10 @@ func (obj Values) First() Object {
 // which case the first value or nil when there are no values.
 func Primary(v Object) Object {
 	if vs, ok := v.(Values); ok {
-		return vs.First()
+		v = vs.First()
+		if list, ok2 := v.(List); ok2 && len(list) == 0 {
+			v = nil // an empty list is nil just as it is for a single value
+		}
 	}
 	return v
 }
